@@ -38,7 +38,7 @@
  */
 #include "inverse_power_coulomb_bounding_potential.h" // Include declarations.
 
-#include <math.h> // For fabs, floor, fmod, pow, sqrt.
+#include <math.h> // For fabs, fmod, pow, round, sqrt.
 
 
 /** @brief Compute the space derivative of the inverse power coulomb bounding potential along the positive x direction
@@ -89,8 +89,12 @@ double displacement(double prefactor_product, double sx, double sy, double sz, d
     double potential_zero = potential(prefactor_product, 0.0, sy, sz);
     double potential_half_length = potential(prefactor_product, system_length_over_two, sy, sz);
     double potential_change_per_system_length = fabs(potential_zero - potential_half_length);
-    double displacement = floor(potential_change / potential_change_per_system_length) * system_length;
-    potential_change = fmod(potential_change, potential_change_per_system_length);
+    // The number of complete trips through the system is derived from the (exact) remainder so that the two cannot
+    // disagree when potential_change / potential_change_per_system_length rounds up to an integer.
+    double remaining_potential_change = fmod(potential_change, potential_change_per_system_length);
+    double displacement = round((potential_change - remaining_potential_change) / potential_change_per_system_length)
+                          * system_length;
+    potential_change = remaining_potential_change;
 
     double new_norm;
     if (prefactor_product > 0.0) {
